@@ -178,6 +178,12 @@ def run(ctx):
                 ctx.nontrivial.add(vflib.digest([s["a"] for s in t["steps"]]))
             if last["a"][0] == "addchildren" and last["a"][2]:
                 stats["addchildren_marking"] += 1
+            prev = t["steps"][-2]["exp"] if len(t["steps"]) > 1 else t["init"]["state"]
+            if last["a"][0] == "addtx" and prev["ann"][last["a"][1]] and last["a"][2] not in prev["ann"][last["a"][1]]:
+                stats["addtx_by_second_announcer"] += 1      # same orphan, another peer's copy of the transaction
+            if last["a"][0] in ("eraseforpeer", "eraseforblock", "addtx", "addannouncer") and any(
+                    0 < len(last["exp"]["ann"][x]) < len(prev["ann"][x]) for x in prev["ann"]):
+                stats["one_of_several_announcements_removed"] += 1
             if last["a"][0] == "gettx" and last["r"]["res"] != "none":
                 stats["gettx_returning"] += 1
         mid_t = tests[len(tests) // 2]
@@ -189,7 +195,7 @@ def run(ctx):
     # simulations run side by side, told apart by -aril (same VERIF_SEED => same behaviours).
     nsim, num, depth = (8, 150, 40) if quick else (8, 700, 60)
     before = (ctx.states, ctx.transitions)
-    with concurrent.futures.ThreadPoolExecutor(max_workers=nsim) as ex:
+    with concurrent.futures.ThreadPoolExecutor(max_workers=max(1, min(nsim, vflib.free_cpus() if hasattr(vflib, 'free_cpus') else nsim))) as ex:
         futs = [ex.submit(ctx.tlc, "Orphanage", "MCOrphanage", "Sim_L.cfg", name="Sim_L-%d" % i, simulate=(num, depth),
                           extra_args=["-aril", str(i)], xmx="2g", timeout=2400) for i in range(nsim)]
         sims = [f.result() for f in futs]
@@ -228,6 +234,8 @@ def run(ctx):
     missing = [a for a in ACTIONS if not per_action[a]]
     if missing:
         raise vflib.InfraError("vacuity: actions never taken in the bounded models: %s" % missing)
+    if not stats["addtx_by_second_announcer"] or not stats["one_of_several_announcements_removed"]:
+        raise vflib.InfraError("vacuity: no AddTx of a present orphan by a second peer / no removal of one of several announcements: %s" % dict(stats))
     if not evicting or not stats["addchildren_marking"] or not stats["gettx_returning"]:
         raise vflib.InfraError("vacuity: no eviction / no reconsideration in the explored behaviours: %s %s" % (dict(evicting), dict(stats)))
     for a in ("addtx", "addannouncer", "eraseforpeer"):
